@@ -147,7 +147,13 @@ func GenDocs(t *Tape, wantBucket bool) *Scenario {
 			if c.Chance(1, 2) {
 				body = fmt.Sprintf("#EXTM3U\n#EXT-X-VERSION:3\n#EXT-X-TARGETDURATION:10\n#EXTINF:10.0,\n%s\n#EXTINF:10.0,\n%s\n#EXT-X-ENDLIST\n", newAsset(".ts"), newAsset(".ts"))
 			} else {
-				body = fmt.Sprintf("#EXTM3U\n#EXT-X-MEDIA:TYPE=AUDIO,GROUP-ID=\"aud\",NAME=\"en\",URI=\"%s\"\n#EXT-X-STREAM-INF:BANDWIDTH=1280000,AUDIO=\"aud\"\n%s\n#EXT-X-STREAM-INF:BANDWIDTH=2560000,AUDIO=\"aud\"\n%s\n", newAsset(".m3u8"), newAsset(".m3u8"), newAsset(".m3u8"))
+				if c.Chance(1, 2) {
+					body = fmt.Sprintf("#EXTM3U\n#EXT-X-MEDIA:TYPE=AUDIO,GROUP-ID=\"aud\",NAME=\"en\",URI=\"%s\"\n#EXT-X-STREAM-INF:BANDWIDTH=1280000,AUDIO=\"aud\"\n%s\n#EXT-X-STREAM-INF:BANDWIDTH=2560000,AUDIO=\"aud\"\n%s\n", newAsset(".m3u8"), newAsset(".m3u8"), newAsset(".m3u8"))
+				} else {
+					// two rendition groups of the same type that reuse the same names
+					body = fmt.Sprintf("#EXTM3U\n#EXT-X-MEDIA:TYPE=AUDIO,GROUP-ID=\"audio-lo\",NAME=\"English\",URI=\"%s\"\n#EXT-X-MEDIA:TYPE=AUDIO,GROUP-ID=\"audio-lo\",NAME=\"Francais\",URI=\"%s\"\n#EXT-X-MEDIA:TYPE=AUDIO,GROUP-ID=\"audio-hi\",NAME=\"English\",URI=\"%s\"\n#EXT-X-MEDIA:TYPE=AUDIO,GROUP-ID=\"audio-hi\",NAME=\"Francais\",URI=\"%s\"\n#EXT-X-STREAM-INF:BANDWIDTH=1280000,AUDIO=\"audio-lo\"\n%s\n#EXT-X-STREAM-INF:BANDWIDTH=2560000,AUDIO=\"audio-hi\"\n%s\n",
+						newAsset(".m3u8"), newAsset(".m3u8"), newAsset(".m3u8"), newAsset(".m3u8"), newAsset(".m3u8"), newAsset(".m3u8"))
+				}
 			}
 		}
 		ext := map[string]string{"json": ".json", "xml": ".xml", "rss": ".rss", "sitemap": ".xml", "m3u8": ".m3u8"}[kind]
